@@ -265,4 +265,116 @@ theorem walk_fuel_irrelevant (t : Tree) (all : Bool) (seen : List Bytes) (shown 
     exact walk_stable t all (walkBound t + k) seen shown real
       (Nat.lt_of_lt_of_le (mu_lt_bound t seen real) (Nat.le_add_right _ _))
 
+/-! ### what the walk lists -/
+
+/-- a name the walk treats as hidden -/
+def hiddenName (nm : Bytes) : Prop := nm.length > 1 ∧ isPrefixOf ['.'] nm = true
+
+/-- a fold whose step keeps an invariant keeps it -/
+theorem foldl_inv {α β : Type} (I : β → Prop) (f : β → α → β) :
+    ∀ (l : List α) (b : β), I b → (∀ acc n, I acc → n ∈ l → I (f acc n)) → I (l.foldl f b)
+  | [], b, hb, _ => hb
+  | x :: xs, b, hb, h => by
+    simp only [List.foldl_cons]
+    exact foldl_inv I f xs (f b x) (h b x hb List.mem_cons_self)
+      (fun acc n ha hn => h acc n ha (List.mem_cons_of_mem _ hn))
+
+/-- without -a no directory with a hidden name is listed, wherever it sits and however it is
+    reached (as a sub-directory, through a link, or as the starting point itself) -/
+theorem walk_no_hidden (t : Tree) : ∀ (fuel : Nat) (seen : List Bytes) (shown real : Bytes),
+    ∀ p ∈ (walk t false fuel seen shown real).1, ¬ hiddenName (baseName p.1)
+  | 0, _, _, _ => by intro p hp; simp [walk] at hp
+  | fuel + 1, seen, shown, real => by
+    intro p hp
+    rw [walk_succ] at hp
+    split at hp
+    · simp at hp
+    · rename_i hroot
+      have hroot' : ¬ hiddenName (baseName shown) := by
+        intro ⟨h1, h2⟩
+        exact hroot ⟨by simp, h1, h2⟩
+      have := foldl_inv
+        (fun acc : List (Bytes × Bytes) × List Bytes => ∀ q ∈ acc.1, ¬ hiddenName (baseName q.1))
+        (stepWith false shown (walk t false fuel)) (childrenOf t real) ([(shown, real)], seen)
+        (by intro q hq; simp only [List.mem_singleton] at hq; subst hq; exact hroot')
+        (by
+          intro acc n ha _
+          obtain ⟨out, s⟩ := acc
+          unfold stepWith
+          simp only
+          split
+          · intro q hq
+            rcases List.mem_append.1 hq with h | h
+            · exact ha q h
+            · exact walk_no_hidden t fuel s _ _ q h
+          · split
+            · split
+              · exact ha
+              · rename_i hnh
+                intro q hq
+                rcases List.mem_append.1 hq with h | h
+                · exact ha q h
+                · simp only [List.mem_singleton] at h
+                  subst h
+                  intro ⟨h1, h2⟩
+                  exact hnh ⟨by simp, h1, h2⟩
+            · intro q hq
+              rcases List.mem_append.1 hq with h | h
+              · exact ha q h
+              · exact walk_no_hidden t fuel (_ :: s) _ _ q h
+          · exact ha)
+      exact this p hp
+
+/-- every directory the walk lists is the starting point, a sub-directory node of the tree, or
+    the target of a directory link: plain files and links to files are never walked into -/
+theorem walk_lists_dirs (t : Tree) (all : Bool) : ∀ (fuel : Nat) (seen : List Bytes) (shown real : Bytes),
+    ∀ p ∈ (walk t all fuel seen shown real).1,
+      p.2 = real ∨ (∃ n ∈ t, n.kind = .dir ∧ n.path = p.2) ∨ p.2 ∈ targets t
+  | 0, _, _, _ => by intro p hp; simp [walk] at hp
+  | fuel + 1, seen, shown, real => by
+    intro p hp
+    rw [walk_succ] at hp
+    split at hp
+    · simp at hp
+    · have := foldl_inv
+        (fun acc : List (Bytes × Bytes) × List Bytes => ∀ q ∈ acc.1,
+          q.2 = real ∨ (∃ n ∈ t, n.kind = .dir ∧ n.path = q.2) ∨ q.2 ∈ targets t)
+        (stepWith all shown (walk t all fuel)) (childrenOf t real) ([(shown, real)], seen)
+        (by intro q hq; simp only [List.mem_singleton] at hq; subst hq; exact Or.inl rfl)
+        (by
+          intro acc n ha hn
+          obtain ⟨out, s⟩ := acc
+          have hnt : n ∈ t := (List.mem_filter.1 hn).1
+          unfold stepWith
+          simp only
+          split
+          · rename_i hk
+            intro q hq
+            rcases List.mem_append.1 hq with h | h
+            · exact ha q h
+            · rcases walk_lists_dirs t all fuel s _ _ q h with h1 | h1 | h1
+              · exact Or.inr (Or.inl ⟨n, hnt, hk, h1.symm⟩)
+              · exact Or.inr (Or.inl h1)
+              · exact Or.inr (Or.inr h1)
+          · rename_i tgt hk
+            have htg : tgt ∈ targets t := target_mem t n tgt hnt hk
+            split
+            · split
+              · exact ha
+              · intro q hq
+                rcases List.mem_append.1 hq with h | h
+                · exact ha q h
+                · simp only [List.mem_singleton] at h
+                  subst h
+                  exact Or.inr (Or.inr htg)
+            · intro q hq
+              rcases List.mem_append.1 hq with h | h
+              · exact ha q h
+              · rcases walk_lists_dirs t all fuel (_ :: s) _ _ q h with h1 | h1 | h1
+                · exact Or.inr (Or.inr (h1 ▸ htg))
+                · exact Or.inr (Or.inl h1)
+                · exact Or.inr (Or.inr h1)
+          · exact ha)
+      exact this p hp
+
 end Gfs.Proofs.WalkTerm
